@@ -79,6 +79,16 @@ func NewMapRefSelfSource[T any, U any](m map[string]U, fn func(U, Sourcer[T]) (r
 			out.List[i].V = v
 		}
 	}
+	// a chain of aliases must end at a definition
+	for _, o := range out.List {
+		cur := o.V
+		for steps := 0; cur != nil && cur.Ref() != nil; steps++ {
+			if steps > len(out.List) {
+				return zero, fmt.Errorf("map key %q: reference cycle", o.Name)
+			}
+			cur = cur.Ref().V
+		}
+	}
 	return out, nil
 }
 
